@@ -382,6 +382,79 @@ theorem tcp_typed_after_add (t : Tcp) (o : TcpOpt) {α} (dec : TcpOpt → Out α
     (t.addOption o).typedGet o.code dec = dec o := by
   simp [Tcp.typedGet, tcp_searchOption_addOption, h]
 
+/-! ### C01, read-only accessors: the typed getters are memory-safe on every option and fail only as libtins exceptions -/
+
+/-- outcome classes of a typed option getter: a value, `malformed_option` or `option_not_found` — never a fault -/
+def AccSafe {α} (r : Out α) : Prop := (∃ a, r = .ok a) ∨ r = .throw .malformedOption ∨ r = .throw .optionNotFound
+
+theorem tcp_decodeU8_safe (o : TcpOpt) : AccSafe (Tcp.decodeU8 o) := by
+  unfold Tcp.decodeU8
+  by_cases h : o.data.length = 1
+  · match hd : o.data with
+    | [x] => left; exact ⟨x.toNat, by simp [hd, rd, bind, Out.bind, pure]⟩
+    | [] => simp [hd] at h
+    | _ :: _ :: _ => simp [hd] at h
+  · right; left; simp [h]
+
+theorem tcp_decodeU16_safe (o : TcpOpt) : AccSafe (Tcp.decodeU16 o) := by
+  unfold Tcp.decodeU16
+  by_cases h : o.data.length = 2
+  · left; exact ⟨Cursor.beNat (o.data.take 2), by simp [h, rdN, bind, Out.bind, pure]⟩
+  · right; left; simp [h]
+
+theorem tcp_decodeTimestamp_safe (o : TcpOpt) : AccSafe (Tcp.decodeTimestamp o) := by
+  unfold Tcp.decodeTimestamp
+  by_cases h : o.data.length = 8
+  · left
+    have h1 := readBE_full o.data 4
+    have hn1 : ¬ o.data.length < 4 := by omega
+    have h2 := readBE_full (o.data.drop 4) 4
+    have hn2 : ¬ (o.data.drop 4).length < 4 := by simp only [List.length_drop]; omega
+    simp only [hn1, if_false] at h1
+    simp only [hn2, if_false] at h2
+    rw [h] at h1
+    exact ⟨(Cursor.beNat (o.data.take 4), Cursor.beNat ((o.data.drop 4).take 4)),
+      by simp only [h, bne_self_eq_false, Bool.false_eq_true, if_false, Cursor.ofBytes, h1, bind, Out.bind, h2, pure]⟩
+  · right; left; simp [h]
+
+/-- the word loop of `convert_vector<uint32_t>` on a stream holding a multiple of 4 bytes: always a list, never a fault,
+    and the fuel `data_size + 1` is never exhausted -/
+theorem tcp_decodeWords_safe (fuel : Nat) (m : Bytes) (hm : m.length % 4 = 0) (hf : m.length < fuel) :
+    ∃ l, Tcp.decodeWords fuel ⟨m, m.length⟩ = .ok l := by
+  induction fuel generalizing m with
+  | zero => omega
+  | succ f ih =>
+    unfold Tcp.decodeWords
+    by_cases hb : (⟨m, m.length⟩ : Cursor).toBool = true
+    · have hpos : m.length > 0 := by simpa [Cursor.toBool] using hb
+      have hn : ¬ m.length < 4 := by omega
+      have h1 := readBE_full m 4
+      simp only [hn, if_false] at h1
+      rcases ih (m.drop 4) (by simp only [List.length_drop]; omega) (by simp only [List.length_drop]; omega) with ⟨l, hl⟩
+      exact ⟨Cursor.beNat (m.take 4) :: l,
+        by simp only [hb, Bool.not_true, Bool.false_eq_true, if_false, h1, bind, Out.bind, hl, pure]⟩
+    · exact ⟨[], by simp only [hb, Bool.not_false, if_true]⟩
+
+theorem tcp_decodeSack_safe (o : TcpOpt) : AccSafe (Tcp.decodeSack o) := by
+  unfold Tcp.decodeSack
+  by_cases h : o.data.length % 4 = 0
+  · left
+    rcases tcp_decodeWords_safe (o.data.length + 1) o.data h (by omega) with ⟨l, hl⟩
+    exact ⟨l, by simp only [h, bne_self_eq_false, Bool.false_eq_true, if_false, Cursor.ofBytes, hl]⟩
+  · right; left; simp [h]
+
+/-- **C01 / TCP accessors**: `mss()`, `winscale()`, `sack()`, `timestamp()`, `altchecksum()` on every TCP object (option
+    present or not, well-formed or not) return a value or throw `option_not_found` / `malformed_option` -/
+theorem tcp_typedGet_safe {α} (t : Tcp) (code : Nat) (dec : TcpOpt → Out α) (hd : ∀ o, AccSafe (dec o)) :
+    AccSafe (t.typedGet code dec) := by
+  unfold Tcp.typedGet
+  split
+  · right; right; rfl
+  · exact hd _
+
+example : Tcp.decodeSack ⟨5, 3, [1, 2, 3]⟩ = .throw .malformedOption := rfl
+example : Tcp.decodeSack ⟨5, 8, [0, 0, 0, 1, 0, 0, 0, 2]⟩ = .ok [1, 2] := rfl
+
 /-! ### scalar setters: a last-write map -/
 
 /-- the scalar getters of TCP by name -/
